@@ -7,7 +7,7 @@ import itertools
 from ..mon import Reach
 from ..ref_sem import Lang
 from ..result import Budget, digest
-from ..shadow import big_link_prefix, Lockstep, Divergence, gen_history
+from ..shadow import big_link_prefix, empty_side_prefix, Lockstep, Divergence, gen_history
 from ..stream import corelang_spec
 from ..gen_lang import gen_language, Cfg
 
@@ -192,6 +192,10 @@ def run(rng, res, tier, shard, nshards):
         lang = Lang(spec)
         hist = gen_history(rng, lang, rng.randint(1, 60) if rng.random() < 0.96 else rng.randint(150, 300), invalid=0.2)
         if rng.random() < 0.08:
+            pre = empty_side_prefix(rng, lang)
+            if pre:
+                hist = pre + hist
+        elif rng.random() < 0.08:
             pre = big_link_prefix(rng, lang)
             if pre:
                 hist = pre + hist
@@ -200,7 +204,10 @@ def run(rng, res, tier, shard, nshards):
         if len(res.samples) < 3 and nontrivial(hist):
             res.sample({'language': name, 'history': hist[:14]})
         if first:
-            small = shrink_history(spec, hist, first[0]) if not first[0].startswith('harness') else hist
+            # shrinking re-runs the history up to 80 times: only the first witness of a mechanism is shrunk (a tree
+            # that violates in most cases must not turn the run into hours)
+            fresh_key = first[0] not in res.viol_counts and len(res.viol_counts) < 4
+            small = shrink_history(spec, hist, first[0]) if (fresh_key and not first[0].startswith('harness')) else hist
             res.violation(first[0], first[1], {'spec': 'corelang' if name == 'corelang' else spec, 'history': small, 'original_history': hist})
     if budget.timed_out():
         res.notes['time-cap-hit'] = True
